@@ -254,3 +254,9 @@ func VerifC11_ExecutorRound_Unknown()     { c11Round(5) }
 
 // the same relation carries C01-O3
 func VerifC01_ExecutorGate() { c11Round(2) }
+
+// C06: a change of the persisted status (phase, batch state, current batch, observed plan) is written and the round
+// ended before any action is taken on the workload, so that the action of the next round is derived from what is
+// persisted (obligation C06.executor.persistBeforeAct of the executor round, run under C06 too).
+func VerifC06_ExecutorPersistsBeforeActing_Progressing() { VerifC11_ExecutorRound_Progressing() }
+func VerifC06_ExecutorPersistsBeforeActing_Preparing()   { VerifC11_ExecutorRound_Preparing() }
